@@ -776,22 +776,40 @@ func runSign(c *Ctx) {
 				problems = append(problems, fmt.Sprintf("byte %d is shifted by %d, big-endian needs %d", k, sh, 8*(n-1-k)))
 			}
 		}
+		// the sign test and the reduction, read off the paths (a helper such as signExtend(n, 24) is walked in place
+		// with its width bound to the constant): exactly two outcomes — sign bit clear ⇒ the assembled value as it is,
+		// sign bit set ⇒ that value minus 1<<bits
 		okMask, okSub := false, false
-		for _, in := range instrs(fn) {
-			bo, ok := in.(*ssa.BinOp)
-			if !ok {
-				continue
-			}
-			if bo.Op == token.AND {
-				if m, ok := constInt(bo.Y); ok && m == 1<<(8*n-1) {
-					okMask = true
+		{
+			t := &Termer{P: c.P}
+			paths, _ := EnumLits(fn.Blocks[0], 0, TabOpts{Termer: t})
+			maskS, subS := fmt.Sprintf("&const:%d)", int64(1)<<(8*n-1)), fmt.Sprintf("-const:%d)", int64(1)<<(8*n))
+			nSet, nClear := 0, 0
+			for _, lp := range paths {
+				if lp.Exit == nil || len(lp.Exit.Results) != 1 {
+					continue
+				}
+				ret := t.Term(lp.Exit.Results[0], lp.PS)
+				for _, l := range lp.Lits {
+					if !strings.HasSuffix(l.Subject, maskS) || l.C != "0" {
+						continue
+					}
+					val := strings.TrimSuffix(strings.TrimPrefix(l.Subject, "("), maskS)
+					set := (l.Op == token.NEQ && l.Val) || (l.Op == token.EQL && !l.Val)
+					if set {
+						nSet++
+						if ret == "("+val+subS {
+							okSub = true
+						}
+					} else {
+						nClear++
+						if ret != val {
+							problems = append(problems, "a value with the sign bit clear is not returned as assembled")
+						}
+					}
 				}
 			}
-			if bo.Op == token.SUB {
-				if m, ok := constInt(bo.Y); ok && m == 1<<(8*n) {
-					okSub = true
-				}
-			}
+			okMask = nSet > 0 && nClear > 0
 		}
 		if !okMask {
 			problems = append(problems, fmt.Sprintf("sign bit mask is not 1<<%d", 8*n-1))
@@ -894,7 +912,7 @@ func runVarint(c *Ctx) {
 		case short:
 			c.Check(val == "0" && cnt == "-1", key, lp.Exit.Pos(), "input exhausted ⇒ (0, −1); returns (%s, %s)", val, cnt)
 		case ninth:
-			c.Check(val == acc8 && cnt == "(1+i)", key, lp.Exit.Pos(), "9th byte ⇒ all 8 bits, stop, count i+1; returns (%s, %s)", val, cnt)
+			c.Check(val == acc8 && (cnt == "(1+i)" || cnt == "9"), key, lp.Exit.Pos(), "9th byte ⇒ all 8 bits, stop, count i+1 = 9; returns (%s, %s)", val, cnt)
 		case notNinth && hiClear:
 			c.Check(val == acc7 && cnt == "(1+i)", key, lp.Exit.Pos(), "byte 1..8 with the high bit clear ⇒ 7 bits, stop, count i+1; returns (%s, %s)", val, cnt)
 		default:
